@@ -164,7 +164,7 @@ func Inconclusive(format string, args ...any) {
 
 // Hex is a short printable form for samples.
 func Hex(b []byte) string {
-	const max = 96
+	const max = 300
 	if len(b) > max {
 		return fmt.Sprintf("%x...(%d bytes)", b[:max], len(b))
 	}
